@@ -335,3 +335,34 @@ contract(
           "bins (a one-bin segment's spread statistics are the decorator's default 0); the bins of each segment are the "
           "ghost field cnarr.bins_of (= what iter_ranges_of yields)",
 )
+
+
+# ----------------------------------------------------------------------------- deductive: the Benjamini-Hochberg step-up itself
+# (key suffix #body: at call sites p_adjust_bh stays the opaque vector function BH above; this contract is about its body)
+# D[k] = position of the k-th largest p-value; rank (ascending, 1-based) of that value = n - k, its step n / (n - k)
+_D = "local_by_descend"
+_STEP = "(float(len(p)) / (len(p) - m)) * p[local_by_descend[m]]"
+contract(
+    "cnvlib/bintest.py::p_adjust_bh#body",
+    params=dict(p=VecT(Real)), returns=VecT(Real),
+    requires=["forall(0, len(p), lambda k: p[k] >= 0)"],
+    ensures=[
+        ("same_length", "len(result) == len(p)"),
+        ("descending_order", "len(D) == len(p) and forall(0, len(p), lambda k: 0 <= D[k] and D[k] < len(p)) and "
+                             "forall(0, len(p), lambda a: forall(0, len(p), lambda b: implies(a <= b, p[D[a]] >= p[D[b]]))) and "
+                             "forall(0, len(p), lambda a: forall(0, len(p), lambda b: implies(a != b, D[a] != D[b])))".replace("D", _D)),
+        # the adjusted value of the k-th largest p is min(1, min over the values at least as large (m <= k) of p * n / rank)
+        ("at_most_one", "forall(0, len(p), lambda k: result[D[k]] <= 1)".replace("D", _D)),
+        ("at_most_every_step_above", "forall(0, len(p), lambda k: forall(0, k + 1, lambda m: result[D[k]] <= STEP))".replace("D", _D).replace("STEP", _STEP)),
+        ("attained", "forall(0, len(p), lambda k: result[D[k]] == 1 or exists(0, k + 1, lambda m: result[D[k]] == STEP))".replace("D", _D).replace("STEP", _STEP)),
+    ],
+    ghost=dict(locals_visible=True, chain_ensures=True),
+    props=("C17",), domain="skip",
+    canaries=[("ascending", "by_descend = p.argsort()[::-1]", "by_descend = p.argsort()"),
+              ("one_more_hypothesis", "steps = float(len(p)) / np.arange(len(p), 0, -1)", "steps = float(len(p) + 1) / np.arange(len(p), 0, -1)"),
+              ("capped_at_two", "q = np.minimum(1, ", "q = np.minimum(2, "),
+              ("order_not_restored", "return q[by_orig]", "return q[by_descend]"),
+              ("running_maximum", "np.minimum.accumulate(", "np.maximum.accumulate(")],
+    notes="the function's own body (call sites see the opaque vector function BH): real arithmetic; argsort = some sorting "
+          "permutation, argsort of a permutation = its inverse, minimum.accumulate = running minimum",
+)
